@@ -22,6 +22,10 @@
 //     issuer (IssuerFromHost / IssuerFromForwardedOrHost, with and without a path),
 //     one provider driven under two request hosts in sequence: "the provider's
 //     issuer" is the issuer of the request.
+//  9. (fault.go) the endpoints while the storage FAILS at a point of the deciding request: every storage call of
+//     the request in turn, every call of one method, every call from the k-th on, with error values of many kinds;
+//     storages that compare secrets naively; requests that carry a client_id / secret next to the assertion.
+//     (6-8: shared.go, clientauth.go, custom.go.)
 package main
 
 import (
@@ -46,7 +50,7 @@ func cpuSeconds() float64 {
 
 func main() {
 	run := ev.Start("C14", "exploration")
-	run.SetRule("distinct = distinct dimension vectors that reached the deciding call: (surface/router, verifier settings class, iss, sub kind, aud form, reference time zones, signing key, kid kind, alg, tamper, extra claims [, grant owner, outer client_id, assertion type | requesting client, outer form, object client_id/response_type kind | entry point, verifier kept or not, outer client_id, Basic header kind | provider variant, verifier kept or not, shape, grant owner relation | parked-at yield point, pair kind, outcome of both calls])")
+	run.SetRule("distinct = distinct dimension vectors that reached the deciding call: (surface/router, verifier settings class, iss, sub kind, aud form, reference time zones, signing key, kid kind, alg, tamper, extra claims [, grant owner, outer client_id, assertion type | requesting client, outer form, object client_id/response_type kind | entry point, verifier kept or not, outer client_id, Basic header kind | provider variant, verifier kept or not, shape, grant owner relation | parked-at yield point, pair kind, outcome of both calls | secrets compared naively, second credential, fault plan kind, storage method the fault fired at, error value])")
 	run.Assume(
 		"time (bracketed: reference evaluated before and after the call, disagreement is inconclusive): exp must-reject when exp <= now-2s whatever the offset, must-accept when exp >= now+offset+2s (an offset may only make expiry stricter); iat must-accept when iat <= now-2s, must-reject when iat >= now+offset+2s; age must-accept when <= maxAge-2s, must-reject when >= maxAge+2s; grey in between",
 		"a kid header that does not lead to the signing key although that key is held for the named client is grey (the statement does not mention kid)",
@@ -59,6 +63,10 @@ func main() {
 		"one *op.JWTProfileVerifier may be used by any number of overlapping calls (the constructors return a pointer, ClientJWTProfile hands a pointer out): each call is judged on its own; a running call that cannot finish while the other is parked is inconclusive",
 		"with a custom subject check that admits sub != iss the authenticated client is still the issuer (the statement: 'the authenticated client identity is then exactly that issuer')",
 		"a client-authentication request that also carries a Basic header, another client_id or no / a wrong client_assertion_type may be refused although the assertion conforms (grey)",
+	)
+	run.Assume(
+		"storage faults: an assertion whose signature could not be checked because the storage failed has not been shown to be signed with a key held for the issuer - the request must not be served as authenticated by it (one-directional); refusing a conforming assertion while a storage call of the request fails is grey",
+		"a request that carries, next to the assertion, the valid non-empty secret of a secret-authenticated client and is served for exactly that client was not authenticated by the assertion (grey); an empty or wrong secret, or a bare client_id, is no credential",
 	)
 	sched.Install() // library spans, storage calls and client getters become yield points (inert unless a goroutine is registered)
 	initRegistry()
@@ -93,9 +101,10 @@ func main() {
 	nShared := run.N(800, 16000)
 	nClientAuth := run.N(6000, 120000)
 	nCfg := run.N(2100, 42000)
+	nFault := run.N(1120, 22400)
 
 	streams := map[string]func(*ev.Run, int){"direct": directCase, "endpoint": endpointCase, "reqobj": reqObjCase, "interop": interopCase, "dynhost": dynCase, "rpinterop": rpInteropCase,
-		"shared": sharedCase, "clientauth": clientAuthCase, "cfgendpoint": cfgCase}
+		"shared": sharedCase, "clientauth": clientAuthCase, "cfgendpoint": cfgCase, "fault": faultCase}
 	if rc := run.ReplayCase(); rc >= 0 {
 		var w struct {
 			Stream string `json:"stream"`
@@ -117,6 +126,7 @@ func main() {
 	run.Mandatory(sharedMandatory()...)
 	run.Mandatory(clientAuthMandatory()...)
 	run.Mandatory(cfgMandatory()...)
+	run.Mandatory(faultMandatory()...)
 	phases, phaseCPU := map[string]float64{}, map[string]float64{}
 	phase := func(name string, n int, fn func(*ev.Run, int)) {
 		t, c := time.Now(), cpuSeconds()
@@ -134,12 +144,13 @@ func main() {
 	phase("clientauth", nClientAuth, clientAuthCase)
 	phase("shared", nShared, sharedCase)
 	phase("cfgendpoint", nCfg, cfgCase)
+	phase("fault", nFault, faultCase)
 	run.Extra("sched_points_total", sched.Points())
 	if pi := mon.Catch(func() { emptyIssuerObservation(run) }); pi != nil {
 		run.Count("observation_not_judged:object_without_iss_and_client_id_signed_with_a_key_stored_under_the_empty_client_id", "panic: "+pi.Value)
 	}
 	run.Extra("phase_wall_s", phases)
 	run.Extra("phase_cpu_s", phaseCPU)
-	run.Extra("cases", map[string]int{"direct": nDirect, "endpoint": nEndpoint, "reqobj": nReqObj, "interop": nInterop, "dynhost": nDyn, "rpinterop": nRP, "shared": nShared, "clientauth": nClientAuth, "cfgendpoint": nCfg})
+	run.Extra("cases", map[string]int{"direct": nDirect, "endpoint": nEndpoint, "reqobj": nReqObj, "interop": nInterop, "dynhost": nDyn, "rpinterop": nRP, "shared": nShared, "clientauth": nClientAuth, "cfgendpoint": nCfg, "fault": nFault})
 	run.Finish()
 }
